@@ -234,6 +234,96 @@ class WriterForm:
         return collapse(out)
 
 
+class _FmtToFString(ast.NodeTransformer):
+    """`'<text>{}<text>{}'.format(a, b)` and `'<text>%s<text>%d' % (a, b)` as the f-string that renders the same text (plain fields only: no
+    format specs, no conversions, no keyword fields; %s / %d directives only - for the ints and strs rendered here `%d` == `%s` == str()).
+    Anything else is left alone (the caller then declines on it)."""
+
+    def visit_Call(self, node: ast.Call):
+        self.generic_visit(node)
+        f = node.func
+        if not (isinstance(f, ast.Attribute) and f.attr == 'format' and isinstance(f.value, ast.Constant) and isinstance(f.value.value, str)):
+            return node
+        if node.keywords or any(isinstance(a, ast.Starred) for a in node.args):
+            return node
+        import string
+        try:
+            fields = list(string.Formatter().parse(f.value.value))
+        except ValueError:
+            return node
+        vals: List[ast.expr] = []
+        auto = 0
+        mode = None
+        for lit, name, spec, conv in fields:
+            if lit:
+                vals.append(ast.Constant(value=lit))
+            if name is None:
+                continue
+            if spec or conv:
+                return node
+            if name == '':
+                if mode == 'manual':
+                    return node
+                mode, idx = 'auto', auto
+                auto += 1
+            elif name.isdigit():
+                if mode == 'auto':
+                    return node
+                mode, idx = 'manual', int(name)
+            else:
+                return node
+            if idx >= len(node.args):
+                return node
+            vals.append(ast.FormattedValue(value=node.args[idx], conversion=-1, format_spec=None))
+        return ast.copy_location(ast.JoinedStr(values=vals), node)
+
+    def visit_BinOp(self, node: ast.BinOp):
+        self.generic_visit(node)
+        if not (isinstance(node.op, ast.Mod) and isinstance(node.left, ast.Constant) and isinstance(node.left.value, str)):
+            return node
+        args = list(node.right.elts) if isinstance(node.right, ast.Tuple) else [node.right]
+        if isinstance(node.right, (ast.Dict, ast.Starred)) or any(isinstance(a, ast.Starred) for a in args):
+            return node
+        t = node.left.value
+        vals: List[ast.expr] = []
+        lit = ''
+        i = k = 0
+        while i < len(t):
+            ch = t[i]
+            if ch != '%':
+                lit += ch
+                i += 1
+                continue
+            if i + 1 >= len(t):
+                return node
+            d = t[i + 1]
+            if d == '%':
+                lit += '%'
+            elif d in 'sd':
+                if k >= len(args):
+                    return node
+                if lit:
+                    vals.append(ast.Constant(value=lit))
+                    lit = ''
+                vals.append(ast.FormattedValue(value=args[k], conversion=-1, format_spec=None))
+                k += 1
+            else:
+                return node
+            i += 2
+        if k != len(args):
+            return node
+        if lit:
+            vals.append(ast.Constant(value=lit))
+        return ast.copy_location(ast.JoinedStr(values=vals), node)
+
+
+def as_fstring(e: ast.AST) -> ast.AST:
+    import copy
+    out = _FmtToFString().visit(copy.deepcopy(e))
+    ast.fix_missing_locations(out)
+    return out
+
+
 def writer_forms(fn: pf.FuncDef, where: str, ploidies: Sequence[int] = (0, 1, 2)) -> Dict[Tuple[int, bool], WriterForm]:
     """Decision list of `Call.__str__`: for each (ploidy, phased) the template of the return statement reached, as literal text and
     holes `alleles[k]`.  The tests are evaluated over the finite abstract domain (ploidy, phased); anything else declines."""
@@ -290,7 +380,7 @@ def writer_forms(fn: pf.FuncDef, where: str, ploidies: Sequence[int] = (0, 1, 2)
 
     def parts_of(e: ast.AST, env: Dict[str, Any], p: int, f: bool) -> List[Tuple[str, Any]]:
         out: List[Tuple[str, Any]] = []
-        for kind, text in strparts.parts(e):
+        for kind, text in strparts.parts(as_fstring(e)):
             if kind == 'lit':
                 out.append(('lit', text))
                 continue
